@@ -25,6 +25,9 @@ FEED_EXEMPT = {
     'Memvid::add_embeddings': 'caller-supplied (frame id, embedding) pairs; membership is re-filtered by build_vec_artifact',
     'Memvid::add_clip_embedding_with_page': 'CLIP side index, not a text/vector retrieval path of this property',
     'Memvid::build_vec_segment_from_embeddings': 'parallel_segments builder over the commit delta only',
+    'memvid::workers::build_lex_artifact': 'parallel_segments worker: indexes the chunks of the ingestion plan it was handed (new documents of this batch), never toc.frames',
+    'memvid::workers::build_vec_artifact': 'parallel_segments worker: indexes the chunks of the ingestion plan it was handed (new documents of this batch), never toc.frames',
+    'memvid::workers::build_time_artifact': 'parallel_segments worker: indexes the chunks of the ingestion plan it was handed (new documents of this batch), never toc.frames',
     'Memvid::insert_sketch': 'single-frame helper; its caller build_all_sketches filters',
     'types::sketch_track::read_sketch_track': 'deserialisation of a persisted track',
     'TantivyEngine::add_frame': 'engine primitive', 'TantivyEngine::add_frame_immediate': 'engine primitive',
